@@ -11,7 +11,7 @@ Open Scope string_scope.
    text outside tag pairs is the new model's, independent of the old model and of the user blocks; a block is
    never attached to a tag of a different name. *)
 Theorem C02_evolution : forall path (u : string -> list string) its fresh' its',
-  wfb its = true -> lines_okb (flatten its) = true -> (forall k, block_ok (u k) = true) ->
+  wfb its = true -> items_okb its = true -> (forall k, block_ok (u k) = true) ->
   parse_items fresh' = Some its' -> Forall (wf_fresh_item kof kpfx) its' ->
   fst (regen_file path fresh' (on_disk u its))
   = on_disk (fun k => if memk String.eqb k (pair_keys kof its) then u k else []) its'.
@@ -36,7 +36,7 @@ Print Assumptions C02_tree_evolution.
 (* chains of models: a chain step is [C02_evolution]; because its result is again of the form [on_disk u' its']
    the next step applies to it (the blocks that did not survive step i are NOT restored at step j > i). *)
 Theorem C02_chain_step_shape : forall path (u : string -> list string) its fresh' its',
-  wfb its = true -> lines_okb (flatten its) = true -> (forall k, block_ok (u k) = true) ->
+  wfb its = true -> items_okb its = true -> (forall k, block_ok (u k) = true) ->
   parse_items fresh' = Some its' -> Forall (wf_fresh_item kof kpfx) its' ->
   exists u', (forall k, block_ok (u' k) = true) /\
              fst (regen_file path fresh' (on_disk u its)) = on_disk u' its' /\
@@ -53,7 +53,7 @@ Definition ex_new : list string :=
 Definition ex_u2 (k : string) : list string := [bs [99;111;100;101;10]].
 
 Example C02_evolution_nonvacuous :
-  exists its', wfb ex_old = true /\ lines_okb (flatten ex_old) = true /\ (forall k, block_ok (ex_u2 k) = true)
+  exists its', wfb ex_old = true /\ items_okb ex_old = true /\ (forall k, block_ok (ex_u2 k) = true)
     /\ parse_items ex_new = Some its' /\ forallb wf_fresh_itemb its' = true
     /\ fst (regen_file "p" ex_new (on_disk ex_u2 ex_old))
        = concat_lines [bs [35;32;32;123;123;123;85;83;69;82;95;89;10]; bs [99;111;100;101;10]; bs [35;32;32;123;123;123;85;83;69;82;95;89;10];
